@@ -8,6 +8,7 @@ import (
 	"os"
 	"strings"
 	"sync"
+	"sync/atomic"
 	"testing"
 	"time"
 
@@ -50,6 +51,15 @@ type DLCase struct {
 	// handshake that this very address is the client's own ("yourip")
 	Liar       bool `json:"yourip_liar"`
 	EndgameMax int  `json:"endgame_max"`
+	// WSStall: the honest web seed is slow — its Nth response pauses for Ms after AtByte body bytes (only with an
+	// honest seeding peer next to it and no bad web seed): the idle-seeder clause is then judged during the pause
+	WSStall *WSStall `json:"ws_stall,omitempty"`
+}
+
+type WSStall struct {
+	Nth    int `json:"nth"`
+	AtByte int `json:"at_byte"`
+	Ms     int `json:"ms"`
 }
 
 func genDL(t *rapid.T) DLCase {
@@ -126,6 +136,9 @@ func genDL(t *rapid.T) DLCase {
 	if c.WebSeed || rapid.IntRange(0, 3).Draw(t, "bws") == 0 {
 		c.BadWebSeed = rapid.IntRange(0, 3).Draw(t, "badws")
 	}
+	if c.SeedPeer && c.WebSeed && c.BadWebSeed == 0 && rapid.IntRange(0, 2).Draw(t, "wsstall") == 0 {
+		c.WSStall = &WSStall{Nth: rapid.IntRange(1, 2).Draw(t, "wsnth"), AtByte: rapid.SampledFrom([]int{0, 1, 100, 20000}).Draw(t, "wsat"), Ms: 4000}
+	}
 	c.ReqOut = rapid.SampledFrom([]int{1, 2, 8, 250}).Draw(t, "reqout")
 	c.EndgameMax = rapid.SampledFrom([]int{1, 2, 20}).Draw(t, "endgame")
 	c.Liar = c.SeedPeer && !c.SeedDials && rapid.IntRange(0, 3).Draw(t, "liar") == 0
@@ -193,6 +206,9 @@ func runDL(c DLCase) core.Result {
 	case 4:
 		cfg.ForceOutgoingEncryption, cfg.ForceIncomingEncryption = true, true
 	}
+	if c.WSStall != nil {
+		cfg.WebseedResponseBodyReadTimeout = time.Duration(c.WSStall.Ms+3000) * time.Millisecond
+	}
 	ses, err := torrent.NewSession(cfg)
 	if err != nil {
 		return core.Result{Inconcl: "session: " + err.Error()}
@@ -208,6 +224,9 @@ func runDL(c DLCase) core.Result {
 			panic(err)
 		}
 		defer good.Close()
+		if c.WSStall != nil {
+			good.StallNth, good.StallAtByte, good.StallBodyMs = c.WSStall.Nth, c.WSStall.AtByte, c.WSStall.Ms
+		}
 		urls = append(urls, good.URL())
 	}
 	if c.BadWebSeed != 0 {
@@ -245,6 +264,7 @@ func runDL(c DLCase) core.Result {
 	servers := make(chan *speer.Server, 16)
 	var allMu sync.Mutex
 	var allServers []*speer.Server
+	var acceptErrs []string // handshakes that failed at a scripted listener (the client's first attempt with the other cipher policy fails by design)
 	track := func(s *speer.Server) *speer.Server {
 		if s != nil {
 			allMu.Lock()
@@ -289,8 +309,11 @@ func runDL(c DLCase) core.Result {
 						// the client may fall back to a plaintext retry: peek is not possible with the reference endpoint, so
 						// a listener with MSE enabled accepts only MSE (the client's first attempt when encryption is enabled)
 					}
-					p, err := speer.Accept(conn, o, 3*time.Second)
+					p, err := speer.Accept(conn, o, 10*time.Second)
 					if err != nil {
+						allMu.Lock()
+						acceptErrs = append(acceptErrs, err.Error())
+						allMu.Unlock()
 						return
 					}
 					s := track(speer.Serve(p, L.b, F, int(l.PieceLength), infoBytes))
@@ -388,10 +411,18 @@ func runDL(c DLCase) core.Result {
 	// client interested and has no request outstanding: a piece that is still incomplete on storage at the end of the
 	// window and for which no scripted peer holds an unanswered request or received one during the window was needed
 	// and unrequested all along.
+	var judged atomic.Bool
 	idleViolation := make(chan string, 1)
 	stopWatch := make(chan struct{})
 	defer close(stopWatch)
-	if c.SeedPeer && !c.WebSeed && c.BadWebSeed == 0 {
+	wsMode := c.SeedPeer && c.WebSeed && c.BadWebSeed == 0 && c.WSStall != nil
+	if (c.SeedPeer && !c.WebSeed && c.BadWebSeed == 0) || wsMode {
+		fileStart := map[string]int64{}
+		for i, o := range l.FileOffsets() {
+			if i < len(l.Files) {
+				fileStart["/"+l.ExpectedPath(i)] = o
+			}
+		}
 		go func() {
 			const window = 2500 * time.Millisecond
 			var since time.Time
@@ -412,8 +443,23 @@ func runDL(c DLCase) core.Result {
 				}
 				idle := false
 				if h != nil && tor.Stats().Status == torrent.Downloading {
-					_, _, outstanding, unchoked, interested, _ := h.Snapshot()
-					idle = outstanding == 0 && unchoked && interested
+					_, _, outstanding, unchoked, interested, lastReq := h.Snapshot()
+					// idle for the whole window: nothing outstanding now and no request since the window began
+					idle = outstanding == 0 && unchoked && interested && (since.IsZero() || lastReq.Before(since))
+				}
+				var wsBusy []strk.WSProgress
+				if idle && wsMode {
+					// the web seed's transfer must sit in its pause for the whole window: what the client has assigned
+					// to the web seed beyond the bytes handed out is invisible, what it can be reading is not
+					var last time.Time
+					wsBusy, last = good.InFlight()
+					stalled := len(wsBusy) > 0
+					for _, p := range wsBusy {
+						if !p.Stalled {
+							stalled = false
+						}
+					}
+					idle = stalled && (since.IsZero() || last.Before(since))
 				}
 				if !idle {
 					since = time.Time{}
@@ -456,6 +502,17 @@ func runDL(c DLCase) core.Result {
 						}
 					}
 				}
+				judged.Store(true)
+				wsNote := ""
+				for _, p := range wsBusy {
+					// the piece the web seed transfer is reading lies between its first byte and the last byte handed out
+					g0 := fileStart[p.Path] + p.Start
+					g1 := g0 + p.Written
+					for pi := g0 / int64(l.PieceLength); pi <= g1/int64(l.PieceLength); pi++ {
+						touched[uint32(pi)] = true
+					}
+					wsNote = fmt.Sprintf(" and the honest web seed's only transfer sat in a pause after %d bytes of %q (pieces %d-%d, which are not counted)", p.Written, p.Path, g0/int64(l.PieceLength), g1/int64(l.PieceLength))
+				}
 				var snap map[string][]byte
 				for _, m := range prov.ByID {
 					snap = m.Snapshot()
@@ -483,8 +540,8 @@ func runDL(c DLCase) core.Result {
 					}
 					if !complete && time.Since(since) >= window && tor.Stats().Status == torrent.Downloading {
 						select {
-						case idleViolation <- fmt.Sprintf("IDLE: for %v the honest seeder (holding every piece) was connected, unchoking, saw the client interested and had no request outstanding, while piece %d was incomplete on storage and no peer held or received a request for it",
-							time.Since(since).Round(100*time.Millisecond), pi):
+						case idleViolation <- fmt.Sprintf("IDLE: for %v the honest seeder (holding every piece) was connected, unchoking, saw the client interested and had no request outstanding, while piece %d was incomplete on storage and no peer held or received a request for it%s",
+							time.Since(since).Round(100*time.Millisecond), pi, wsNote):
 						default:
 						}
 						return
@@ -534,6 +591,17 @@ func runDL(c DLCase) core.Result {
 	if len(c.Nuisance) > 0 {
 		res.Labels = append(res.Labels, "nuisance")
 	}
+	if c.WSStall != nil {
+		res.Labels = append(res.Labels, "slow-webseed")
+	}
+	if judged.Load() {
+		// a full window with the honest seeder idle was examined (and every incomplete piece was accounted for)
+		if wsMode {
+			res.Labels = append(res.Labels, "idle-window-judged-webseed-paused")
+		} else {
+			res.Labels = append(res.Labels, "idle-window-judged")
+		}
+	}
 	if !completed {
 		// stuck-state predicate over a quiescence window
 		st0 := tor.Stats()
@@ -565,12 +633,23 @@ func runDL(c DLCase) core.Result {
 			return core.Failf("STUCK: after 29 s the download is incomplete (%d/%d pieces) and the client has never connected to the honest seeder whose address it was given with AddPeer: a peer without any piece had told it in its extension handshake that this address is the client's own (yourip), and the address was discarded",
 				st1.Pieces.Have, st1.Pieces.Total)
 		}
-		if good != nil && !progress && len(good.Log()) == ws0 && honest == nil {
+		wsKnown := good != nil && !c.Magnet // a magnet link carries no web seed address: the client does not know of it
+		if wsKnown && !progress && len(good.Log()) == ws0 && honest == nil {
 			return core.Failf("STUCK: after 25 s the download is incomplete (%d/%d pieces, status %v) and for a further 4 s nothing moved although an honest web seed is configured and idle (%d requests so far)",
 				st1.Pieces.Have, st1.Pieces.Total, st1.Status, ws0)
 		}
-		if honest == nil && good == nil {
-			return core.Failf("no honest source ever connected (client dialed none of %v)", peerAddrs)
+		if honest == nil && !wsKnown {
+			allMu.Lock()
+			errs := append([]string(nil), acceptErrs...)
+			allMu.Unlock()
+			for _, e := range errs {
+				if strings.Contains(e, "timeout") || strings.Contains(e, "deadline") {
+					// the property assumes a reachable source: a handshake that the scripted listener gave up after 10 s (loaded machine) is not the client's doing
+					res.Inconcl = fmt.Sprintf("the honest seeder never got connected: a handshake timed out at a scripted listener (%v)", errs)
+					return res
+				}
+			}
+			return core.Failf("no honest source ever connected (addresses given to the client: %v; handshakes that failed at the scripted listeners: %v)", peerAddrs, errs)
 		}
 		res.Inconcl = fmt.Sprintf("not complete after 29 s but still moving (%d/%d)", st1.Pieces.Have, st1.Pieces.Total)
 		return res
